@@ -30,6 +30,9 @@ def cases(rng, tier):
 def oracle(line, out, mode):
     if line.startswith("RTBIG "):
         return genb.judge_rtbig(line, out)
+    if out.startswith("ALTDIFF "):
+        return ("the public routes for one step disagree: %s gives another result than Bundle::try_from(&[u8]) / to_cbor on the "
+                "same bundle" % out[8:])
     if not out.startswith("OK "):
         return "encode/decode does not complete: %s" % out[:40]
     b = genb.parse_bundle_line(line[3:])
